@@ -1,2 +1,4 @@
+pub mod lat;
+pub mod rel;
 pub mod stream;
 pub mod tok;
